@@ -20,6 +20,7 @@ import (
 	"encoding/json"
 	"fmt"
 	"math/big"
+	"runtime/debug"
 	"sort"
 	"strconv"
 	"strings"
@@ -55,9 +56,11 @@ const (
 	quotaB = 1500
 
 	// premined empty blocks: the TDPoS methods accept only heights above the
-	// consensus start height (1 for a genesis consensus), so the search starts
-	// where both "tip" and "tip-1" are acceptable height arguments.
-	premine = 2
+	// consensus start height (1 for a genesis consensus). With one premined
+	// block Init lands at height 2, so the tip is an acceptable height argument
+	// for every call after Init, and tip-1 from the next block on (before that
+	// the $tdpos bucket is empty and a revoke fails whatever height it names).
+	premine = 1
 )
 
 var lockTypes = []string{typeOrdinary, typeTdpos}
@@ -400,9 +403,6 @@ func (i *inst) mine(txs []*pb.Transaction) (height int64, timerTx bool, err erro
 		return height, timerTx, fmt.Errorf("PlayForMiner: %v", err)
 	}
 	vhook.Drain()
-	if p, _ := i.w.State.GetUnconfirmedTx(false); len(p) != 0 {
-		return height, timerTx, fmt.Errorf("pool not empty after block")
-	}
 	i.tip = stored
 	return height, timerTx, nil
 }
@@ -781,6 +781,17 @@ func (i *inst) check(hist []string) []core.Violation {
 	if len(s.Fired) > 0 {
 		i.cnt.add("timer_fired_blocks")
 	}
+	for k, v := range post.Raw[bktProposal] {
+		if _, err := strconv.Atoi(k); err != nil {
+			continue
+		}
+		var pr struct {
+			Status string `json:"status"`
+		}
+		if json.Unmarshal([]byte(v), &pr) == nil {
+			i.cnt.add("proposal_status:" + pr.Status)
+		}
+	}
 
 	// a call that failed leaves the tables as they were
 	if !s.Mined {
@@ -974,7 +985,9 @@ func run(tier core.Tier) *core.Report {
 	rep := core.NewReport("C19", tier, "model_checking")
 	world.Init()
 	vhook.Capture()
-	depth, deep := 4, 5
+	// many short-lived worlds: trade memory for fewer collections
+	defer debug.SetGCPercent(debug.SetGCPercent(400))
+	depth, deep := 4, 6
 	if tier == core.Thorough {
 		depth, deep = 5, 7
 	}
@@ -992,18 +1005,23 @@ func run(tier core.Tier) *core.Report {
 		st = xplore.Explore(cfg)
 		st2 = xplore.Explore(cfg2)
 	}
+	// one concrete trace with its observations as the first sample
+	sample := []string{"init", "propose:a", "vote:1:a:all", "vote:1:b:500", "tick", "xfer:a>b:all"}
+	obs, _ := xplore.Replay(func() xplore.Instance { return newInst(&counters{m: map[string]int{}}, nil, "full") }, sample)
+	rep.Sample(map[string]interface{}{"history": sample, "observations": obs})
 	st.Fill(rep, "full.")
 	st2.Fill(rep, "proposal.")
 	col.flush(rep)
-	// one concrete trace as a sample with observations
-	sample := []string{"init", "propose:a", "vote:1:a:all", "vote:1:b:500", "tick", "xfer:a>b:all"}
-	obs, _ := xplore.Replay(func() xplore.Instance { return newInst(cnt, nil, "full") }, sample)
-	rep.Sample(map[string]interface{}{"history": sample, "observations": obs})
 
 	cnt.mu.Lock()
 	byKind := map[string]int{}
 	committed, rejected := 0, 0
+	statuses := map[string]int{}
 	for k, v := range cnt.m {
+		if strings.HasPrefix(k, "proposal_status:") {
+			statuses[strings.TrimPrefix(k, "proposal_status:")] = v
+			continue
+		}
 		byKind[k] = v
 		if strings.HasSuffix(k, ":committed") || strings.HasSuffix(k, ":mined") {
 			committed += v
@@ -1014,6 +1032,7 @@ func run(tier core.Tier) *core.Report {
 	}
 	cnt.mu.Unlock()
 	rep.Set("calls_by_kind_and_outcome", byKind)
+	rep.Set("proposal_statuses_seen", statuses)
 	rep.Set("calls_committed", committed)
 	rep.Set("calls_rejected", rejected)
 	rep.Set("bound", fmt.Sprintf("pass 'full': all call sequences of length <= %d over Init, Transfer(from,to in {a,b,c fresh} incl. to=from; 0,1,500,1000,all,all+1 and, with locks, available / available+1), Propose(a|b), Vote(p,a|b;0,500,all), Thaw(p,a|b), block ticks (timer tasks: CheckVoteResult / Trigger), TDPoS nominate / vote / revokeVote / revokeNominate (1,500,all; revokes naming the tip or the height before it), direct Lock / UnLock; pass 'proposal': length <= %d over Init, Transfer a<->b (500, all | available, available+1), Propose, Vote (500, all), Thaw, ticks; genesis quotas a=%d b=%d; merged on the committed content of the governToken, proposal, timer and $tdpos buckets (+ height while timer tasks are pending)", depth, deep, quotaA, quotaB))
